@@ -34,6 +34,31 @@ namespace occa {
     freeRing<modeStreamTag_t>(streamTagRing);
   }
 
+#if OCCA_THREAD_SHARABLE_ENABLED
+  static mutex_t bytesAllocatedMutex;
+#endif
+
+  void modeDevice_t::addBytesAllocated(const udim_t bytes) {
+#if OCCA_THREAD_SHARABLE_ENABLED
+    bytesAllocatedMutex.lock();
+#endif
+    bytesAllocated += bytes;
+    maxBytesAllocated = std::max(maxBytesAllocated, bytesAllocated);
+#if OCCA_THREAD_SHARABLE_ENABLED
+    bytesAllocatedMutex.unlock();
+#endif
+  }
+
+  void modeDevice_t::removeBytesAllocated(const udim_t bytes) {
+#if OCCA_THREAD_SHARABLE_ENABLED
+    bytesAllocatedMutex.lock();
+#endif
+    bytesAllocated -= bytes;
+#if OCCA_THREAD_SHARABLE_ENABLED
+    bytesAllocatedMutex.unlock();
+#endif
+  }
+
   void modeDevice_t::dontUseRefs() {
     deviceRing.dontUseRefs();
   }
